@@ -366,6 +366,9 @@ def validate_trace(module, cfg, trace_path, shards=4, heap="3g", timeout=1800, w
     if n == 0:
         raise Infra("empty trace %s" % trace_path)
     shards = max(1, min(shards, (n + 199) // 200))
+    # a shard's events live in the JVM as TLC values (~10x their JSON): keep shards below ~700k events
+    # so that they fit the heap instead of thrashing it; tlc_parallel runs NCPU/2 of them at a time
+    shards = max(shards, (n + 699999) // 700000)
     jobs, maps = [], []
     for s in range(shards):
         idx = list(range(s, n, shards))          # round-robin: balances heterogeneous traces
